@@ -287,7 +287,7 @@ RULE = (
 
 def build(tier):
     return CheckSpec(
-        [Sub("scenarios", run_case, strategy=_case, budget={"quick": 3000, "thorough": 60000}, max_wall={"quick": 55, "thorough": 2400})],
+        [Sub("scenarios", run_case, strategy=_case, budget={"quick": 3000, "thorough": 300000}, max_wall={"quick": 55, "thorough": 3600})],
         RULE,
         assumptions=["OS boundary replaced by vlib.simnet", "BaseException subclasses (CancelledError, SystemExit) raised by handlers are outside the statement"],
         selftest=selftest,
